@@ -23,6 +23,9 @@ type Frame struct {
 	Remote tcpip.LinkAddress
 	Local  tcpip.LinkAddress
 	Seq    int // index in the tap's trace
+	// Refused: the link endpoint returned an error for this frame (transmit
+	// fault injected through Tap.Refuse); it was not transmitted
+	Refused bool
 }
 
 // Tap is a stack.LinkEndpoint owned by the harness.
@@ -32,6 +35,10 @@ type Tap struct {
 	Addr    tcpip.LinkAddress
 	HdrLen  uint16
 	Forward func(f Frame) // called synchronously on the emitting goroutine (may be nil)
+	// Refuse, when set, is asked about every frame before it is transmitted; a
+	// non-nil error is returned to the stack from WritePacket (a transient
+	// transmit fault of the device) and the frame is recorded as Refused
+	Refuse func(f Frame) *tcpip.Error
 
 	mu    sync.Mutex
 	cond  *sync.Cond
@@ -77,11 +84,23 @@ func (t *Tap) WritePacket(r *stack.Route, hdr buffer.Prependable, payload buffer
 	}
 	f.Pkt = codec.DecodeNet(uint16(p), b, codec.DecodeOpts{L4ChecksumOffload: t.Caps&stack.CapabilityChecksumOffload != 0})
 	t.mu.Lock()
+	refuse := t.Refuse
+	t.mu.Unlock()
+	var rerr *tcpip.Error
+	if refuse != nil {
+		if rerr = refuse(f); rerr != nil {
+			f.Refused = true
+		}
+	}
+	t.mu.Lock()
 	f.Seq = len(t.trace)
 	t.trace = append(t.trace, f)
 	fw := t.Forward
 	t.cond.Broadcast()
 	t.mu.Unlock()
+	if rerr != nil {
+		return rerr
+	}
 	if fw != nil {
 		fw(f)
 	}
